@@ -16,6 +16,10 @@ TYPES = {
     'u32': ('u32', '(i as u32).wrapping_mul(2654435761).wrapping_add(17)', '*x as u64', False),
     'p3': ('(u8, u16)', '((i % 200) as u8, ((i * 13 + 5) % 65521) as u16)', '(x.0 as u64) | ((x.1 as u64) << 8)', False),
     'unit': ('()', '()', '7', True),
+    # unusual representations: over-aligned (size 16 for one payload byte), 3-byte, and a type with invalid bit patterns
+    'a16': ('A16', 'A16(((i * 5 + 1) % 251) as u8)', 'x.0 as u64', False),
+    'b3': ('[u8; 3]', '[(i % 251) as u8, ((i * 3) % 253) as u8, 9]', '(x[0] as u64) | ((x[1] as u64) << 8) | ((x[2] as u64) << 16)', False),
+    'ch': ('char', "(b'A' + (i % 26) as u8) as char", '*x as u64', False),
 }
 
 HEAD = '''#![allow(unused, dead_code, clippy::all, unused_unsafe)]
@@ -25,6 +29,9 @@ use generic_array::{arr, ArrayLength, ConstArrayLength, GenericArray as GA, Into
 use generic_array::internals::{ArrayBuilder, ArrayConsumer, IntrusiveArrayBuilder};
 
 pub type Out = (usize, usize, u64, u64, isize);
+#[derive(Clone, Copy)]
+#[repr(align(16))]
+pub struct A16(pub u8);
 type N<const K: usize> = ConstArrayLength<K>;
 
 const fn mix(h: u64, v: u64) -> u64 { (h ^ v).wrapping_mul(0x100000001b3) }
